@@ -1,7 +1,7 @@
 INIT Init
 NEXT Next
 CONSTANTS
-  ListVals = {101, 102}
+  ListVals = {101, 102, 111}
   MaxListLen = 3
   Bounds <- BoundsQuick
   StepsC <- StepsQuick
